@@ -105,6 +105,7 @@ structure Track where
   timersSinceReset : Nat := 0
   lastP : List (TP × List Sid) := []   -- last payload seen per topic/partition
   cancelledQueued : List Sid := []     -- sends cancelled while still queued
+  lateCancel : Bool := false           -- some send was cancelled after its batch was dispatched
   deriving Repr
 
 def isCompletion (e : Ev) : Bool := (completionOf e).isSome
@@ -165,7 +166,9 @@ def trackEv (pre : Snap) (t : Track) (e : Ev) : Track :=
         { t with nextSid := t.nextSid + 1,
                  sends := if msgs.isEmpty then t.sends else t.sends ++ [{ sid, topic, key, msgs }] }
       else t
-    | .cancel sid => if sid ∈ pre.queue then { t with cancelledQueued := sid :: t.cancelledQueued } else t
+    | .cancel sid =>
+      if sid ∈ pre.queue then { t with cancelledQueued := sid :: t.cancelledQueued }
+      else if sid ∈ pre.outstanding then { t with lateCancel := true } else t
     | .stop .. => if effective t e then { t with stopped := true } else t
     | _ => t
   match (if effective t e then completionOf e else none), t0.cur, t0.curRes with
